@@ -89,6 +89,16 @@ def main(quiet=False):
         if from_us(_lv(_m(ctx), s2._e)) != t0 + datetime.timedelta(
                 seconds=60, milliseconds=-1):
             bad.append(("dt add",))
+        # time-zone labels: astimezone keeps the instant, replace(tzinfo=) keeps the wall-clock reading
+        tzs = [datetime.timezone.utc] + [datetime.timezone(datetime.timedelta(hours=h)) for h in (2, -3, 9)]
+        for tz1 in tzs:
+            for tz2 in tzs:
+                for tz3 in tzs:
+                    n += 1
+                    real = (t0.astimezone(tz1) + datetime.timedelta(hours=1)).replace(tzinfo=tz2).astimezone(tz3)
+                    sym = (s.astimezone(tz1) + datetime.timedelta(hours=1)).replace(tzinfo=tz2).astimezone(tz3)
+                    if from_us(_lv(_m(ctx), sym._e)) != real or sym.tzinfo.utcoffset(None) != real.utcoffset():
+                        bad.append(("dt tz", tz1, tz2, tz3))
     finally:
         Ctx.cur = None
     if bad:
